@@ -15,6 +15,7 @@ import (
 	"fmt"
 	"math"
 	"os"
+	"runtime/debug"
 	"sort"
 	"strings"
 	"sync"
@@ -557,6 +558,9 @@ func equalInts(a, b []int) bool {
 }
 
 func TestProp(t *testing.T) {
+	// The code under test allocates several small objects per score evaluation; a larger GC target
+	// only trades a few MB of heap for less collector work.
+	debug.SetGCPercent(400)
 	pbt.Main(t, pbt.Spec{
 		ID: "C21",
 		Rule: "generated configuration = 1-12 distinct host:port strings, MaxReplica 1-6, a 60-digit digest suffix and 1-3 membership/health states " +
